@@ -15,7 +15,8 @@ import collections
 from vermouth.parser_utils import (
     SectionLineParser, _tokenize, _substitute_macros, _parse_macro
 )
-from vermouth.ffinput import FFDirector, _get_atoms, _treat_atom_prefix, _parse_edges
+from vermouth.ffinput import (FFDirector, _get_atoms, _treat_atom_prefix, _parse_edges,
+                             _treat_link_interaction_atoms)
 
 class PolyplyFFParser(FFDirector):
     '''
@@ -71,6 +72,12 @@ def _parse_edges_new(tokens, context, context_type, negate):
         if atomname not in context and context_type == 'modification':
             raise KeyError(error_message.format(atomname, context_type,
                                                 context.name))
+    # atoms of a link that are only named in the edges section are link atoms
+    # like all others; they need their name, order and the link wide attributes
+    if context_type == 'link':
+        new_atoms = [(atom[0], {}) for atom, prefixed_atom in zip(atoms, prefixed_atoms)
+                     if prefixed_atom not in context]
+        _treat_link_interaction_atoms(new_atoms, context, 'edges')
     context.add_edge(prefixed_atoms[0], prefixed_atoms[1], **edge_attributes)
 
 def read_ff(lines, force_field):
